@@ -274,10 +274,23 @@ Qed.
 Lemma here_heres {A} (d : list (pat * A)) : here d = match heres d with a :: _ => Some a | [] => None end.
 Proof. reflexivity. Qed.
 
-Lemma lookup_scan fuel : forall (d : db) path caps, NoDup (map fst d) -> length path < fuel ->
+(** the state of the machine holds only expressions with at least one value *)
+Definition nonempty_db (d : db) : Prop := Forall (fun e => vals (snd e) <> []) d.
+
+Lemma nonempty_deriv t (d : db) : nonempty_db d -> nonempty_db (deriv t d).
+Proof.
+  unfold nonempty_db. rewrite !Forall_forall. intros H [p n] Hin. apply in_deriv in Hin. apply (H _ Hin).
+Qed.
+
+Lemma nonempty_heres (d : db) n : nonempty_db d -> In n (heres d) -> vals n <> [].
+Proof.
+  unfold nonempty_db. rewrite Forall_forall. intros H Hin. apply in_heres in Hin. apply (H _ Hin).
+Qed.
+
+Lemma lookup_scan fuel : forall (d : db) path caps, NoDup (map fst d) -> nonempty_db d -> length path < fuel ->
   lookup false fuel m d path caps = scan_res caps (enum fuel d path).
 Proof.
-  induction fuel as [|f IH]; intros d path caps Hnd Hlen; [lia|].
+  induction fuel as [|f IH]; intros d path caps Hnd Hne Hlen; [lia|].
   destruct path as [|c rest].
   - cbn [lookup enum]. rewrite here_heres.
     destruct (heres_le1 d Hnd) as [->|[n ->]]; simpl; [reflexivity|].
@@ -288,7 +301,7 @@ Proof.
                   else lookup false f m (deriv (L c) d) rest caps)
                  = scan_res caps (enum f (deriv (L c) d) rest)).
     { destruct (deriv (L c) d) eqn:E; [rewrite enum_nil; reflexivity|]. cbn [is_nil]. rewrite <- E.
-      apply IH; [apply NoDup_deriv; assumption | simpl in Hlen; lia]. }
+      apply IH; [apply NoDup_deriv; assumption | apply nonempty_deriv; assumption | simpl in Hlen; lia]. }
     rewrite H1. destruct (scan_res caps (enum f (deriv (L c) d) rest)) as [| [|] |]; try reflexivity.
     pose proof (take_seg_length_lt (c :: rest)) as Hl.
     destruct (take_seg (c :: rest)) as [seg rest'].
@@ -301,14 +314,16 @@ Proof.
                                  | [] => []
                                  | _ :: _ => map (liftW seg) (enum f (deriv W d) rest')
                                  end).
-    { destruct seg as [|x seg]; [destruct (is_nil _); reflexivity|]. rewrite scan_res_liftW.
+    { destruct seg as [|x seg]; [destruct (is_nil (deriv W d)); reflexivity|]. rewrite scan_res_liftW.
       destruct (deriv W d) eqn:E; [rewrite enum_nil; reflexivity|]. cbn [is_nil]. rewrite <- E.
-      apply IH; [apply NoDup_deriv; assumption|].
+      apply IH; [apply NoDup_deriv; assumption | apply nonempty_deriv; assumption |].
       simpl fst in Hl. simpl snd in Hl. assert (length rest' < length (c :: rest)) by (apply Hl; discriminate). lia. }
     rewrite H2. destruct (scan_res caps _) as [| [|] |]; try reflexivity.
     rewrite here_heres.
-    destruct (heres_le1 (deriv C d) (NoDup_deriv C d Hnd)) as [->|[n ->]]; simpl; [reflexivity|].
-    destruct (vals n) eqn:Ev; [reflexivity|].
+    destruct (heres_le1 (deriv C d) (NoDup_deriv C d Hnd)) as [E|[n E]]; rewrite E; simpl; [reflexivity|].
+    assert (Hv : vals n <> []).
+    { apply (nonempty_heres (deriv C d)); [apply nonempty_deriv; assumption | rewrite E; left; reflexivity]. }
+    destruct (vals n) eqn:Ev; [congruence|].
     destruct (find _ _); [reflexivity|]. destruct (flag n); reflexivity.
 Qed.
 
@@ -333,11 +348,11 @@ Proof.
 Qed.
 
 (** the repaired search is the specification *)
-Theorem find_is_spec (d : db) path : NoDup (map fst d) ->
+Theorem find_is_spec (d : db) path : NoDup (map fst d) -> nonempty_db d ->
   find_in false d path m = spec_lookup d path m.
 Proof.
-  intro Hnd. unfold find_in, find_res, spec_lookup.
-  rewrite (lookup_scan _ d path [] Hnd (Nat.lt_succ_diag_r _)).
+  intros Hnd Hne. unfold find_in, find_res, spec_lookup.
+  rewrite (lookup_scan _ d path [] Hnd Hne (Nat.lt_succ_diag_r _)).
   rewrite (scan_res_scan path); [|apply enum_caps].
   f_equal. symmetry. apply sort_e_unique.
   - apply NoDup_filter_fst. assumption.
